@@ -1179,21 +1179,13 @@ def build_struct(target_host: str, banner: Optional['Banner'], kex: Optional['SS
                 'hash_alg': 'MD5',
                 'hash': fp.md5[4:]
             })
-    else:
-        pkm_supported_ciphers = None
-        pkm_supported_authentications = None
-        pkm_fp = None
-        if pkm is not None:
-            pkm_supported_ciphers = pkm.supported_ciphers
-            pkm_supported_authentications = pkm.supported_authentications
-            pkm_fp = Fingerprint(pkm.host_key_fingerprint_data).sha256
-
+    elif pkm is not None:  # SSHv1.  (When neither message was obtained, i.e. the handshake failed, there are no algorithms to list.)
         res['key'] = ['ssh-rsa1']
-        res['enc'] = pkm_supported_ciphers
-        res['aut'] = pkm_supported_authentications
+        res['enc'] = pkm.supported_ciphers
+        res['aut'] = pkm.supported_authentications
         res['fingerprints'] = [{
             'type': 'ssh-rsa1',
-            'fp': pkm_fp,
+            'fp': Fingerprint(pkm.host_key_fingerprint_data).sha256,
         }]
 
     # Historically, CVE information was returned.  Now we'll just return an empty dictionary so as to not break any legacy clients.
